@@ -176,6 +176,13 @@ func (s *serveOpts) keygen(c echo.Context) error {
 
 func (s *serveOpts) bulk(c echo.Context) error {
 	ctx := c.Request().Context()
+	// Replies are streamed while requests are still being read: without full
+	// duplex an HTTP/1.x server discards whatever has not been read of the
+	// request body as soon as the first reply is written, and the remaining
+	// requests of the stream are lost.
+	// (not every ResponseWriter supports it, e.g. HTTP/2 needs nothing and
+	// test recorders have no connection: an error here is not a failure)
+	_ = http.NewResponseController(c.Response()).EnableFullDuplex()
 	c.Response().Header().Set(echo.HeaderContentType, echo.MIMEApplicationJSON)
 	c.Response().WriteHeader(http.StatusOK)
 
